@@ -397,22 +397,22 @@ namespace avel {
             return *this;
         }
 
-        AVEL_FINL Vector operator<<=(long long s) {
+        AVEL_FINL Vector& operator<<=(long long s) {
             content = _mm512_sll_epi32(content, _mm_cvtsi64_si128(s));
             return *this;
         }
 
-        AVEL_FINL Vector operator>>=(long long s) {
+        AVEL_FINL Vector& operator>>=(long long s) {
             content = _mm512_sra_epi32(content, _mm_cvtsi64_si128(s));
             return *this;
         }
 
-        AVEL_FINL Vector operator<<=(Vector s) {
+        AVEL_FINL Vector& operator<<=(Vector s) {
             content = _mm512_sllv_epi32(content, primitive(s));
             return *this;
         }
 
-        AVEL_FINL Vector operator>>=(Vector s) {
+        AVEL_FINL Vector& operator>>=(Vector s) {
             content = _mm512_srav_epi32(content, primitive(s));
             return *this;
         }
